@@ -104,6 +104,13 @@ def _(eng, ci, a, sp):
     return eng.call_closure(a[1], [a[0].f[0]])
 
 
+@S('Option::or_else')
+def _(eng, ci, a, sp):
+    if a[0].var == 'Some':
+        return a[0]
+    return eng.call_closure(a[1], [])
+
+
 @S('Option::ok_or_else')
 def _(eng, ci, a, sp):
     if a[0].var == 'Some':
